@@ -35,10 +35,15 @@ IsGround(at) == \A i \in 1..Len(at.a) : ~IsVar(at.a[i])
 (* Guards (expressions attached to a rule), evaluated under a complete     *)
 (* binding: TRUE, FALSE or "err".  Only what the enumerated universes use: *)
 (*   none | eq(l,r) | neq(l,r) | lt(l,r) over integer atoms | nz(t): the   *)
-(*   model of `10 / t >= 0` - an error when t is the integer 0.            *)
+(*   model of `10 / t >= 0` - an error when t is the integer 0 | ov(t):    *)
+(*   the model of `MAX + t > 0` - an overflow when t is positive.          *)
 (***************************************************************************)
 Guard(k, l, r) == [k |-> k, l |-> l, r |-> r]
 NoGuard == Guard("none", "-", "-")
+
+\* results: "T", "F", or an error kind: "Ed" (division by zero), "Eo" (overflow), "Et" (type)
+ErrKinds == {"Ed", "Eo", "Et"}
+IsErrKind(v) == v \in ErrKinds
 
 EvalGuard(g, s) ==
     LET l == SubstTerm(g.l, s)  r == SubstTerm(g.r, s) IN
@@ -47,13 +52,18 @@ EvalGuard(g, s) ==
       [] g.k = "neq"  -> IF l # r THEN "T" ELSE "F"
       [] g.k = "lt"   -> IF l \in DOMAIN IntVal /\ r \in DOMAIN IntVal
                          THEN (IF IntVal[l] < IntVal[r] THEN "T" ELSE "F")
-                         ELSE "E"
+                         ELSE "Et"
+      \* 10 / l >= 0
       [] g.k = "nz"   -> IF l \in DOMAIN IntVal
-                         THEN (IF IntVal[l] = 0 THEN "E" ELSE "T")
-                         ELSE "E"
+                         THEN (IF IntVal[l] = 0 THEN "Ed" ELSE "T")
+                         ELSE "Et"
+      \* MAX + l > 0
+      [] g.k = "ov"   -> IF l \in DOMAIN IntVal
+                         THEN (IF IntVal[l] > 0 THEN "Eo" ELSE "T")
+                         ELSE "Et"
       [] g.k = "false" -> "F"
 
-\* all guards of a rule under binding s: "E" if the first non-true guard is an error
+\* all guards of a rule under binding s: the first guard that is not true decides
 RECURSIVE EvalGuards(_, _)
 EvalGuards(gs, s) ==
     IF gs = <<>> THEN "T"
@@ -97,9 +107,10 @@ ApplyRule(r, F) ==
               m \in {x \in Matches(r.body, V) : EvalGuards(r.guards, x.s) = "T"}}
 
 \* does some binding of r make a guard fail with an error ?
-RuleErrors(r, F) ==
+RuleErrKinds(r, F) ==
     LET V == Visible(F, r.trusted) IN
-    \E m \in Matches(r.body, V) : EvalGuards(r.guards, m.s) = "E"
+    {EvalGuards(r.guards, m.s) : m \in Matches(r.body, V)} \cap ErrKinds
+RuleErrors(r, F) == RuleErrKinds(r, F) # {}
 
 Step(F, R) == F \cup UNION {ApplyRule(r, F) : r \in R}
 
